@@ -48,6 +48,8 @@ type lsEnv struct {
 	forceAdd bool
 	profile  string
 	wantBoth bool // a repository just moved between roots: prefer syncing both roots
+	wantRoots []string // C34: the root set the next sync should preferably use (set by the collision generator)
+	lastColl  string   // C34: one of the two colliding directories of the last step (often deleted before the next one)
 }
 
 type lsRepo struct {
@@ -608,24 +610,44 @@ func (c lsCmd) term() string {
 
 // ---------------------------------------------------------------- independent discovery (oracle side)
 
-type lsSpec struct{ name, source string }
+type lsSpec struct {
+	name, source string
+	root         int // position of the root (in the command line) under which it was found
+}
+
+// lsCollision: two discovered repositories that would get the same name, or one directory reached twice
+type lsCollision struct {
+	what     string // "name" | "source"
+	sameRoot bool
+	a, b     lsSpec
+}
+
+func (c lsCollision) String() string {
+	where := "under different roots"
+	if c.sameRoot {
+		where = "under the same root"
+	}
+	if c.what == "name" {
+		return fmt.Sprintf("name %q for %s and %s (%s)", c.a.name, c.a.source, c.b.source, where)
+	}
+	return fmt.Sprintf("directory %s discovered twice as %q and %q (%s)", c.a.source, c.a.name, c.b.name, where)
+}
 
 // lsIndependentDiscover finds the repositories below the roots the plain way: recursive descent with os.Stat,
-// outermost repository wins. Returns the specs and whether a name or a source repeats.
-func (e *lsEnv) independentDiscover(roots []string) (specs []lsSpec, dup bool, rootErr bool) {
+// outermost repository wins. Every discovered directory is compared with EVERY other one (whichever roots they
+// were found under): returns the specs, the colliding pairs (same name / same directory) and whether a root is bad.
+func (e *lsEnv) independentDiscover(roots []string) (specs []lsSpec, colls []lsCollision, rootErr bool) {
 	seenRoot := map[string]bool{}
-	names := map[string]bool{}
-	sources := map[string]bool{}
 	for _, r := range roots {
 		real := e.w + r
 		st, err := os.Stat(real)
 		if err != nil || !st.IsDir() || seenRoot[r] {
-			return nil, false, true
+			return nil, nil, true
 		}
 		seenRoot[r] = true
 	}
-	var rec func(root, dir string)
-	rec = func(root, dir string) {
+	var rec func(ri int, root, dir string)
+	rec = func(ri int, root, dir string) {
 		rel, _ := filepath.Rel(root, dir)
 		name := filepath.ToSlash(rel)
 		if rel == "." {
@@ -641,27 +663,45 @@ func (e *lsEnv) independentDiscover(roots []string) (specs []lsSpec, dup bool, r
 			}
 		}
 		if hit {
-			src := e.canon(dir)
-			if names[name] || sources[src] {
-				dup = true
-			}
-			names[name] = true
-			sources[src] = true
-			specs = append(specs, lsSpec{name, src})
+			specs = append(specs, lsSpec{name, e.canon(dir), ri})
 			return
 		}
 		ents, _ := os.ReadDir(dir)
 		for _, en := range ents {
 			if en.IsDir() {
-				rec(root, filepath.Join(dir, en.Name()))
+				rec(ri, root, filepath.Join(dir, en.Name()))
 			}
 		}
 	}
-	for _, r := range roots {
-		rec(e.w+r, e.w+r)
+	for i, r := range roots {
+		rec(i, e.w+r, e.w+r)
 	}
-	sort.Slice(specs, func(i, j int) bool { return specs[i].name < specs[j].name })
-	return specs, dup, false
+	for i := range specs {
+		for j := i + 1; j < len(specs); j++ {
+			switch {
+			case specs[i].name == specs[j].name:
+				colls = append(colls, lsCollision{"name", specs[i].root == specs[j].root, specs[i], specs[j]})
+			case specs[i].source == specs[j].source:
+				colls = append(colls, lsCollision{"source", specs[i].root == specs[j].root, specs[i], specs[j]})
+			}
+		}
+	}
+	sort.SliceStable(specs, func(i, j int) bool { return specs[i].name < specs[j].name })
+	return specs, colls, false
+}
+
+// lsNearMiss: two discovered names that differ only by a ".git" suffix or one trailing character (measured for the
+// evidence: the generator must produce near-misses of the collision rule that are NOT collisions)
+func lsNearMiss(specs []lsSpec) bool {
+	for i := range specs {
+		for j := range specs {
+			a, b := specs[i].name, specs[j].name
+			if i != j && a != b && (a+".git" == b || (len(b) == len(a)+1 && strings.HasPrefix(b, a))) {
+				return true
+			}
+		}
+	}
+	return false
 }
 
 // ---------------------------------------------------------------- one step = one case
@@ -774,6 +814,7 @@ func (e *lsEnv) step(c lsCmd, which string, history []string) (res lsStepResult)
 	if c.remove {
 		kind = "remove"
 	}
+	var collClass []string
 	if which == "C33" {
 		rp := func(extra map[string]any) map[string]any {
 			m := replay()
@@ -867,13 +908,62 @@ func (e *lsEnv) step(c lsCmd, which string, history []string) (res lsStepResult)
 			return o
 		}
 		if !c.remove {
-			specs, dup, rootErr := e.independentDiscover(c.roots)
-			if dup || rootErr {
-				if forceErr == nil {
-					vfOracleFail("sync:duplicate-or-bad-root-accepted", "sync -f succeeded although two discovered repositories collide (or a root is invalid)", rp(nil))
+			specs, colls, rootErr := e.independentDiscover(c.roots)
+			dup := len(colls) > 0
+			if dup {
+				e.lastColl = colls[0].b.source
+			}
+			// which kind of collision the layout contains (evidence histogram) — over ALL pairs of discovered
+			// directories, inside one root as well as across roots
+			for _, cl := range colls {
+				where := "cross-root"
+				if cl.sameRoot {
+					where = "same-root"
 				}
-				if d := lsSnapDiff(shardsOnly(snap0), shardsOnly(snap2)); len(d) > 0 {
-					vfOracleFail("sync:failed-discovery-changed-index", "sync -f failed in discovery but changed shards", rp(map[string]any{"diff": d}))
+				collClass = append(collClass, "collision="+cl.what+":"+where)
+			}
+			sort.Strings(collClass)
+			collClass = lsUniq(collClass)
+			if rootErr {
+				collClass = append(collClass, "collision=bad-root")
+			} else if !dup && lsNearMiss(specs) {
+				collClass = append(collClass, "collision=near-miss-only")
+			}
+			if dup || rootErr {
+				// "if two discovered repositories would get the same name the command fails before changing the index"
+				key, what := "sync:bad-root-accepted", "a root is missing, not a directory or repeated"
+				var cs []string
+				if dup {
+					where := "cross-root"
+					if colls[0].sameRoot {
+						where = "same-root"
+					}
+					key = "sync:duplicate-" + colls[0].what + "-accepted:" + where
+					what = "two discovered repositories would get the same name"
+					if colls[0].what == "source" {
+						what = "one repository is discovered through two roots"
+					}
+					what += " (" + colls[0].String() + ")"
+					for _, cl := range colls {
+						cs = append(cs, cl.String())
+					}
+				}
+				extra := map[string]any{"collisions": cs, "preview_error": fmt.Sprint(dryErr)}
+				changed := lsSnapDiff(shardsOnly(snap0), shardsOnly(snap2))
+				if len(changed) > 0 {
+					extra["diff"] = changed
+				}
+				if forceErr == nil {
+					w := what + " but sync -f succeeded"
+					if len(changed) > 0 {
+						w += " and changed the index"
+					}
+					vfOracleFail(key, w, rp(extra))
+				} else if len(changed) > 0 {
+					vfOracleFail("sync:failed-discovery-changed-index", what+": sync -f failed but changed shards before failing", rp(extra))
+				}
+				if dryErr == nil {
+					vfOracleFail(strings.Replace(key, "-accepted", "-accepted-by-preview", 1), what+" but the preview (no -f) succeeded", rp(extra))
 				}
 			} else if fsx >= 1 && fsx <= 3 {
 				vfOracleFail("sync:valid-layout-rejected", "sync -f failed in discovery although the roots are valid and no names or sources collide", rp(nil))
@@ -1058,7 +1148,7 @@ func (e *lsEnv) step(c lsCmd, which string, history []string) (res lsStepResult)
 			}
 		}
 	}
-	defer func() { res.class = append(res.class, why...) }()
+	defer func() { res.class = append(append(res.class, why...), collClass...) }()
 	res.class = []string{kind, fmt.Sprintf("status=%d", ds), fmt.Sprintf("removals=%d", min(nrm, 3)), fmt.Sprintf("index=%d", min(nidx, 3)), fmt.Sprintf("uptodate=%d", min(nutd, 3))}
 	res.sample = map[string]any{"command": strings.Join(e.args(c, false), " "), "preview": dryOut, "forced": forceOut, "status": ds, "preview_error": fmt.Sprint(dryErr), "forced_error": fmt.Sprint(forceErr)}
 	return res
@@ -1089,6 +1179,116 @@ func (e *lsEnv) randomRepoPath() string {
 
 func (e *lsEnv) existing() []string { return vfSortedKeys(e.repos) }
 
+func lsUniq(xs []string) []string { // xs sorted
+	var out []string
+	for i, x := range xs {
+		if i == 0 || xs[i-1] != x {
+			out = append(out, x)
+		}
+	}
+	return out
+}
+
+// collide (profile C34) builds layouts around the rule "two discovered repositories must not get the same name":
+// the name is the path relative to the root with ".git" trimmed for bare repositories, so a bare `x.git` and a
+// working tree `x` collide wherever they sit — next to each other under ONE root (also nested: a/x.git + a/x) or
+// under two roots; one directory reached through two overlapping roots collides with itself; `x.git.git`, a working
+// tree called `x.git`, `x2` next to `x` are near-misses that must be accepted.
+func (e *lsEnv) collide(history *[]string) bool {
+	note := func(f string, a ...any) { *history = append(*history, fmt.Sprintf(f, a...)) }
+	var cands []string // existing repositories below a root (not the root itself), of a kind discovery reports
+	for _, c := range e.existing() {
+		k := e.repos[c].kind
+		if len(lsSegs(c)) >= 2 && !(k == "bare" && !strings.HasSuffix(c, ".git")) {
+			cands = append(cands, c)
+		}
+	}
+	if len(cands) == 0 {
+		return false
+	}
+	c := cands[e.r.Intn(len(cands))]
+	segs := lsSegs(c)
+	root, rel := "/"+segs[0], strings.Join(segs[1:], "/")
+	if strings.HasPrefix(c, "/r1/team/") && e.r.Chance(30) { // also seen from the nested root r1/team
+		root, rel = "/r1/team", strings.Join(segs[2:], "/")
+	}
+	bareHere := e.repos[c].kind == "bare"
+	base := rel // the name discovery gives it
+	if bareHere {
+		base = strings.TrimSuffix(rel, ".git")
+	}
+	otherRoot := map[string]string{"/r1": "/r2", "/r2": "/r1", "/r3.git": "/r2", "/r1/team": "/r2"}[root]
+	add := func(p, kind string) {
+		e.dropUnder(p)
+		ver := e.r.Intn(3)
+		e.addRepo(p, kind, ver)
+		note("add %s kind=%s ver=%d", p, kind, ver)
+	}
+	twin := func(r string) (string, string) { // the path and kind under root r that gets the same name as c
+		if bareHere {
+			return r + "/" + base, "work"
+		}
+		return r + "/" + base + ".git", "bare"
+	}
+	switch k := e.r.Intn(100); {
+	case k < 40: // same root: bare x.git next to the working tree x (flat or nested, whatever c is)
+		p, kind := twin(root)
+		add(p, kind)
+		note("collide same-root: %s ~ %s", c, p)
+		e.wantRoots = e.r.Pick3([]string{root}, []string{root, otherRoot}, []string{otherRoot, root})
+	case k < 60: // two roots: the same relative path again (same kind, or its bare/working-tree twin)
+		p, kind := otherRoot+"/"+rel, e.repos[c].kind
+		if e.r.Chance(50) {
+			p, kind = twin(otherRoot)
+		}
+		add(p, kind)
+		note("collide cross-root: %s ~ %s", c, p)
+		e.wantRoots = e.r.Pick3([]string{root, otherRoot}, []string{otherRoot, root}, []string{"/r1", "/r2", "/r3.git"})
+	case k < 72: // the same directory reachable twice: overlapping roots
+		if !strings.HasPrefix(c, "/r1/team/") {
+			p := "/r1/team/" + e.r.Pick([]string{"a", "b", "c.git"})
+			kind := "work"
+			if strings.HasSuffix(p, ".git") {
+				kind = "bare"
+			}
+			add(p, kind)
+		}
+		note("collide overlapping roots")
+		e.wantRoots = e.r.Pick3([]string{"/r1", "/r1/team"}, []string{"/r1/team", "/r1"}, []string{"/r2", "/r1/team", "/r1"})
+	default: // near-misses: accepted layouts close to the rule
+		var p, kind string
+		switch e.r.Intn(4) {
+		case 0:
+			p, kind = root+"/"+base+".git.git", "bare" // named base.git
+		case 1:
+			p, kind = root+"/"+base+"2", "work"
+		case 2:
+			p, kind = root+"/"+base+".git", "work" // a working tree whose directory is called x.git: not trimmed
+			if !bareHere && e.r.Chance(50) {
+				p, kind = root+"/"+base+".git", "emptygit"
+			}
+		default:
+			p, kind = root+"/"+base+".git", "empty-dir" // x.git without objects: not a repository at all
+		}
+		if p == c {
+			return false
+		}
+		if kind == "empty-dir" {
+			e.dropUnder(p)
+			os.RemoveAll(e.w + p)
+			os.MkdirAll(e.w+p+"/refs", 0o755)
+			note("near-miss: %s (no objects) next to %s", p, c)
+		} else {
+			add(p, kind)
+			note("near-miss: %s next to %s", p, c)
+		}
+		e.wantRoots = e.r.Pick3([]string{root}, []string{root, otherRoot}, []string{otherRoot, root})
+	}
+	return true
+}
+
+func (r *vfRand) Pick3(a, b, c []string) []string { return [][]string{a, b, c}[r.Intn(3)] }
+
 func (e *lsEnv) mutate(history *[]string) {
 	defer lsTimed("mutate")()
 	note := func(f string, a ...any) { *history = append(*history, fmt.Sprintf(f, a...)) }
@@ -1096,6 +1296,9 @@ func (e *lsEnv) mutate(history *[]string) {
 	k := e.r.Intn(100)
 	if e.profile == "C34" { // layouts matter more than histories: more adds/renames/clutter, fewer moves
 		k = []int{10, 10, 10, 10, 10, 30, 52, 52, 60, 64, 72, 80, 85, 92, 92, 95}[e.r.Intn(16)]
+		if !e.forceAdd && e.r.Chance(22) && e.collide(history) {
+			return
+		}
 	}
 	switch {
 	case k < 25 || len(ex) == 0 || e.forceAdd: // add
@@ -1222,6 +1425,12 @@ func (e *lsEnv) mutate(history *[]string) {
 
 func (e *lsEnv) pickRoots() []string {
 	var roots []string
+	if w := e.wantRoots; w != nil {
+		e.wantRoots = nil
+		if e.r.Chance(75) {
+			return w
+		}
+	}
 	if e.wantBoth {
 		e.wantBoth = false
 		if e.r.Chance(80) {
@@ -1293,6 +1502,7 @@ func (e *lsEnv) resetScenario() {
 		os.MkdirAll(e.w+r, 0o755)
 	}
 	e.repos = map[string]*lsRepo{}
+	e.wantRoots, e.lastColl = nil, ""
 }
 
 func (e *lsEnv) pickSelectors(inv []lsShard) []string {
@@ -1345,6 +1555,14 @@ func lsRun(t *testing.T, which string, n int) {
 		steps := 3 + e.r.Intn(4)
 		for st := 0; st < steps && cases < n; st++ {
 			if st > 0 {
+				if p := e.lastColl; p != "" { // mostly resolve the last collision so that later steps sync again
+					e.lastColl = ""
+					if e.r.Chance(65) {
+						os.RemoveAll(e.w + p)
+						e.dropUnder(p)
+						history = append(history, "delete "+p)
+					}
+				}
 				for i, k := 0, e.r.Intn(3); i < k; i++ {
 					e.mutate(&history)
 				}
